@@ -116,13 +116,14 @@ func isCallTo(name string, argCheck func(*ssa.CallCommon) bool) func(ssa.Instruc
 }
 
 func runC03(c *Ctx) {
+	driverRule(c, "C03.R8", []string{"Gossip).gossipRound"})
 	p := c.P
 	g := newGossipAnchors(p)
 	if !g.ok {
 		c.fail("C03.anchor", "pkg/gossip state types", token.NoPos, "unresolved:"+g.missing)
 		return
 	}
-	c.floor("C03.R1", 5)
+	c.floor("C03.R1", 8)
 	// --- R1: digest handler ---
 	if fn := p.Func(gsPkg, "packetListener.digest"); fn != nil {
 		c.analysed(fnName(fn))
@@ -206,6 +207,114 @@ func runC03(c *Ctx) {
 		}
 		steps := []func(ssa.Instruction) bool{isCallTo(gsFn("clusterState).ApplyDelta"), func(cc *ssa.CallCommon) bool { return isDecodedDelta(cc.Args[1]) })}
 		onEveryOKPath(c, "C03.R1", fn, "applies-decoded-delta", steps, []string{"ApplyDelta(decoded delta)"})
+	}
+	// the stream join handler also learns the joiner's nodes and answers with everything the joiner lacks
+	if fn := p.Func(gsPkg, "streamListener.join"); fn != nil {
+		digestT := p.NamedType(gsPkg, "digest")
+		isDecodedDigest := func(v ssa.Value) bool {
+			u, ok := strip(v).(*ssa.UnOp)
+			if !ok || u.Op != token.MUL {
+				return false
+			}
+			al, ok := u.X.(*ssa.Alloc)
+			if !ok || !types.Identical(al.Type().(*types.Pointer).Elem(), digestT) {
+				return false
+			}
+			for _, r := range *al.Referrers() {
+				if mi, ok := r.(*ssa.MakeInterface); ok {
+					for _, rr := range *mi.Referrers() {
+						if cl, ok := rr.(*ssa.Call); ok && strings.HasSuffix(commonName(&cl.Call), "decoder).Decode") {
+							return true
+						}
+					}
+				}
+			}
+			return false
+		}
+		var reply *ssa.Call
+		steps := []func(ssa.Instruction) bool{
+			isCallTo(gsFn("clusterState).ApplyDigest"), func(cc *ssa.CallCommon) bool { return isDecodedDigest(cc.Args[1]) }),
+			func(i ssa.Instruction) bool {
+				ok := isCallTo(gsFn("clusterState).Delta"), func(cc *ssa.CallCommon) bool {
+					full, isK := constBool(cc.Args[2])
+					return isDecodedDigest(cc.Args[1]) && isK && full
+				})(i)
+				if ok {
+					reply = i.(*ssa.Call)
+				}
+				return ok
+			},
+			isCallTo(gsFn("encoder).Encode"), func(cc *ssa.CallCommon) bool {
+				if reply == nil {
+					return false
+				}
+				mi, ok := cc.Args[1].(*ssa.MakeInterface)
+				if !ok {
+					return false
+				}
+				// the reply is spilled into the `delta` local and loaded back
+				if strip(mi.X) == ssa.Value(reply) {
+					return true
+				}
+				if u, ok := strip(mi.X).(*ssa.UnOp); ok {
+					if al, ok := u.X.(*ssa.Alloc); ok {
+						for _, r := range *al.Referrers() {
+							if st, ok := r.(*ssa.Store); ok && st.Val == ssa.Value(reply) {
+								return true
+							}
+						}
+					}
+				}
+				return false
+			}),
+			func(i ssa.Instruction) bool { return isCall(i, "(*bufio.Writer).Flush") },
+		}
+		onEveryOKPath(c, "C03.R1", fn, "join-exchange", steps, []string{"ApplyDigest(decoded digest)", "Delta(decoded digest, full=true)", "Encode(that delta)", "Flush"})
+	}
+	// the digest handler answers a request with its own digest, marked as a response (never a request: no ping-pong)
+	if fn := p.Func(gsPkg, "packetListener.digest"); fn != nil {
+		fs := computeFacts(fn)
+		reqF := p.Field(gsPkg, "digestHeader", "Request")
+		isReq := func(f Fact) bool { _, ok := loadedField(f.V, reqF); return ok }
+		var sends []ssa.Instruction
+		for _, call := range findCalls(fn, gsFn("packetListener).sendDigest")) {
+			sends = append(sends, call)
+			cc := callCommon(call)
+			facts := fs.At(call.Block())
+			onReq := anyFact(facts, func(f Fact) bool { return isReq(f) && f.T })
+			resp, isK := constBool(cc.Args[3])
+			_, isDigest := strip(cc.Args[1]).(*ssa.Call)
+			c.check(onReq && isK && !resp && isDigest, "C03.R1", fnName(fn)+"/answers-request-with-response-digest", call.Pos(), "sendDigest(state.Digest(), header.Addr, request=false) only when the received digest was a request",
+				"the digest reply is not sent exactly for requests, or is itself marked as a request (two nodes then answer each other forever); facts "+factStrings(facts))
+		}
+		// every successful path that handled a request has sent it
+		bad := ""
+		paths, complete := enumPathsAt(fn.Blocks[0], 0, func(i ssa.Instruction) bool {
+			for _, s := range sends {
+				if s == i {
+					return true
+				}
+			}
+			return false
+		}, nil, nil, 400)
+		if !complete {
+			bad = "too many paths"
+		}
+		for _, pa := range paths {
+			if pa.endWhy != "return" {
+				continue
+			}
+			rv := returnValues(pa.end.(*ssa.Return))
+			if len(rv) > 0 && !isNilConst(rv[len(rv)-1]) {
+				continue
+			}
+			wasReq := anyFact(pa.facts, func(f Fact) bool { return isReq(f) && f.T })
+			notReq := anyFact(pa.facts, func(f Fact) bool { return isReq(f) && !f.T })
+			if len(pa.seen) == 0 && (wasReq || !notReq) {
+				bad = "a successful path that handled a request (or never looked at header.Request) does not send the digest back"
+			}
+		}
+		c.check(bad == "" && len(sends) > 0, "C03.R1", fnName(fn)+"/request-always-answered", fn.Pos(), "every successful handling of a request digest sends our digest", "the two-way exchange is broken: "+bad)
 	}
 	// --- R2: discovery at version 0; Digest reports Version ---
 	c.floor("C03.R2", 2)
@@ -444,6 +553,11 @@ func derivesFromCall(v ssa.Value, call *ssa.Call, d int) bool {
 // ---------------------------------------------------------------- C12
 
 func runC12(c *Ctx) {
+	driverRule(c, "C12.R6", []string{"clusterState).UpdateLiveness"})
+	facadeRule(c, "C12.R6", []facadeSpec{
+		{gsPkg, "accrualFailureDetector.Report", "accrualFailureDetector).ReportWithTimestamp", "time.Now", false},
+		{gsPkg, "accrualFailureDetector.SuspicionLevel", "accrualFailureDetector).SuspicionLevelAt", "time.Now", true},
+	})
 	p := c.P
 	g := newGossipAnchors(p)
 	if !g.ok {
@@ -1008,7 +1122,7 @@ func c12Lifecycle(c *Ctx, windowsF *types.Var) {
 			_, ok = loadedField(cl.Call.Args[0], windowsF)
 			return ok && strip(cl.Call.Args[1]) == ssa.Value(fn.Params[1])
 		}
-		end := everyPathFrom(fn.Blocks[0].Instrs[0], isDel, nil, true)
+		end := everyPathEntry(fn, isDel, nil, true)
 		c.check(end == nil, "C12.R5", fnName(fn)+"/drops-window", fn.Pos(), "delete(windows, nodeID) on every path", "Remove does not drop the node's window: a node that comes back is judged by its stale history")
 	} else {
 		c.fail("C12.anchor", "accrualFailureDetector.Remove", token.NoPos, "not found")
